@@ -18,7 +18,8 @@ from labella.node import Node
 # the same table as DeltaOf / Opt0 in spec/Engine.tla (mx = 0 stands for maxPos None)
 OPT0 = {"mx": 0, "mn": 0, "ns": 3, "alg": "overlap", "sw": 1, "dn": 85}
 DELTAS = {"d1": {"mx": 8}, "d2": {"mx": 0}, "d3": {"ns": 1}, "d4": {"alg": "simple"}, "d5": {"mx": 14, "sw": 0},
-          "d6": {"mn": -1}, "d7": {"mn": 2, "mx": 12}, "d8": {"dn": 50, "mx": 10}}
+          "d6": {"mn": -1}, "d7": {"mn": 2, "mx": 12}, "d8": {"dn": 50, "mx": 10},
+          "d9": {"mx": 1, "mn": 0}}
 KEYMAP = {"mx": "maxPos", "mn": "minPos", "ns": "nodeSpacing", "alg": "algorithm", "sw": "stubWidth", "dn": "density"}
 
 DEFAULT_SETS = {
@@ -34,9 +35,16 @@ DEFAULT_SETS2 = {
 }
 
 
+_ORDER = [0]
+
+
 def to_force_opts(delta, scale):
     out = {}
-    for k, v in delta.items():
+    items = list(delta.items())
+    _ORDER[0] += 1
+    if _ORDER[0] % 2 == 0:           # the insertion order of an options dict is no input: every other dict is built backwards
+        items.reverse()
+    for k, v in items:
         if k == "mx":
             out["maxPos"] = None if v == 0 else v * scale
         elif k == "mn":
